@@ -52,7 +52,7 @@ def meta_of(step, t, sent_has_delay=True):
 
 class C10(InterpProp):
     id = 'C10'
-    anomaly_tags = ('meta', 'macro')
+    anomaly_tags = ('meta', 'macro', 'time')
     # observables compared with the model (see InterpProp.normalize)
     cmp_eff = ('meta',)
     cmp_step = ()
@@ -60,7 +60,7 @@ class C10(InterpProp):
     cmp_callbacks = False
     cmp_err = 'full'
     cmp_time = False
-    quick_cases = 500
+    quick_cases = 1000
     thorough_cases = 15000
     n_ops = 24
     rule = ('random monitored charts (sending, notifying) with two recording listeners attached and a generated '
